@@ -155,6 +155,113 @@ def check_identity_order(fx, rep, rule, names, floor):
 
 
 
+INTERIOR_WRITERS = ("RwLock::<T>::write", "RwLock::<T>::try_write", "Mutex::<T>::lock", "Mutex::<T>::try_lock", "RefCell::<T>::borrow_mut", "RefCell::<T>::replace", "Cell::<T>::set", "Cell::<T>::replace", "OnceCell", "OnceLock", "::fetch_add", "::fetch_sub", "::store", "::swap", "::compare_exchange")
+
+
+def check_run_persistent_state(fx, rep, cg, rule="R02.4"):
+    """`the same bytecode with the same configuration yields an equal result every time` - also the second time the same engine
+    is used. The type checker's `run` replaces its per-run state wholesale; everything else the engine owns (its configuration:
+    lifting passes, inference rules, and whatever they own) outlives the run. A write to a field of such a type in a function
+    reachable from `run` is state carried from one run into the next: it needs a reviewed row (tables/persistent_state.tsv)
+    saying why the next run cannot observe it."""
+    TC = "tc::TypeChecker"
+    run = fx.body(TC + "::run")
+    adt = fx.adt(TC)
+    if not rep.anchor(rule, run is not None and adt is not None and run.get("mir"), "TypeChecker and its run method"):
+        return
+    fields = adt["variants"][0]["fields"]
+
+    def self_field(p):
+        return isinstance(p, dict) and p.get("l") == 1 and len(p.get("proj", [])) >= 2 and p["proj"][0] == "*" and isinstance(p["proj"][1], dict) and "f" in p["proj"][1]
+
+    # the per-run fields: assigned as a whole by run itself (before anything is computed from them)
+    per_run = set()
+    for bl in run["mir"]["blocks"]:
+        for st in bl.get("stmts", []):
+            pl = st.get("p")
+            if st.get("s") == "Assign" and self_field(pl) and len(pl["proj"]) == 2:
+                per_run.add(pl["proj"][1]["f"])
+    rep.oblige(bool(per_run), rule, "run-resets-its-state", F.loc(run["span"]), "TypeChecker::run no longer replaces its per-run state as a whole: judgements of an earlier run take part in the next one", sample={"rule": rule, "per_run_fields": [fields[i]["name"] for i in sorted(per_run) if i < len(fields)]})
+    # types that outlive a run: closure over the fields of the remaining ones, through `dyn Trait` to the implementors
+    import re
+
+    def type_names(ty):
+        return set(re.findall(r"[A-Za-z_][A-Za-z0-9_]*(?:::[A-Za-z_][A-Za-z0-9_]*)+", ty or ""))
+
+    work = []
+    for i, f in enumerate(fields):
+        if i not in per_run:
+            work += list(type_names(f["ty"]))
+    persistent = set()
+    while work:
+        t = work.pop()
+        if t in persistent:
+            continue
+        a = fx.adt(t)
+        if a is not None and not t.startswith("std::"):
+            persistent.add(t)
+            for v in a.get("variants", []):
+                for f in v["fields"]:
+                    work += list(type_names(f["ty"]))
+        else:
+            impls = [i for i in fx.impls if i.get("trait") == t and not i.get("from_expansion")]
+            for i in impls:
+                if i.get("self_adt"):
+                    work.append(i["self_adt"])
+    persistent.discard("watchdog::LazyWatchdog")
+    rep.floor(rule, len(persistent), 10, "types owned by the engine beyond one run (configuration, passes, rules)")
+    rows = tables.Keyed("persistent_state.tsv", fx)
+    reach = cg.reachable({run["def"]})
+    n_fn = n_w = 0
+    for name in sorted(reach):
+        b = fx.bodies.get(name)
+        if not b or not b.get("mir") or b.get("from_expansion"):
+            continue
+        st_ty = F.strip_generics(b.get("impl_self") or "")
+        self_adt = next((i.get("self_adt") for i in fx.impls if i.get("def") == b.get("impl")), None) if b.get("impl") else None
+        owner = st_ty if st_ty in persistent else (self_adt if self_adt in persistent else None)
+        if owner is None:
+            continue
+        n_fn += 1
+        mir = b["mir"]
+        l1 = next((l for l in mir["locals"] if l["i"] == 1), None)
+        writes = {}
+        if l1 and str(l1.get("ty", "")).startswith("&mut "):
+            oadt = fx.adt(owner)
+            ofields = oadt["variants"][0]["fields"] if oadt and oadt.get("variants") else []
+            for bl in mir["blocks"]:
+                for st in bl.get("stmts", []):
+                    pl, rv = st.get("p"), st.get("rv") or {}
+                    hit = None
+                    if st.get("s") == "Assign" and self_field(pl):
+                        hit = pl
+                    elif rv.get("r") in ("Ref", "RawPtr") and (rv.get("mut") or rv.get("r") == "RawPtr") and self_field(rv.get("p")):
+                        hit = rv["p"]
+                    if hit is not None:
+                        fi = hit["proj"][1]["f"]
+                        fname = ofields[fi]["name"] if fi < len(ofields) else str(fi)
+                        writes.setdefault(fname, st.get("span"))
+        for c, _ in F.calls(b["hir"]["value"]) if b.get("hir") else []:
+            cd = F.callee_def(c) or ""
+            if any(w in cd for w in INTERIOR_WRITERS) and ("sync::" in cd or "cell::" in cd):
+                writes.setdefault("interior:" + cd.split("::")[-1], c.get("span"))
+        for fname, span in sorted(writes.items()):
+            n_w += 1
+            key = f"{F.strip_generics(name) if not name.startswith('<') else name}|{fname}"
+            row = rows.get(key)
+            rep.fn(name)
+            rep.oblige(
+                row is not None,
+                rule,
+                f"persistent-write:{key}",
+                F.loc(span),
+                f"`{name}` writes `{fname}` of `{owner}` while the type checker runs; that state is owned by the engine's configuration and outlives the run (run only replaces {[fields[i]['name'] for i in sorted(per_run) if i < len(fields)]}): a second run of the same engine on the same input can answer differently. No reviewed row in tables/persistent_state.tsv",
+                sample={"rule": rule, "fn": name, "field": fname, "owner": owner, "reviewed": row[1] if row else None},
+            )
+    rep.floor(rule, n_fn, 10, "functions of engine-owned types on the run() call graph")
+    rep.extra["persistent_types"] = sorted(persistent)
+
+
 def check(fx, rep, tier):
     cg = F.CallGraph(fx)
     entries = [b["def"] for b in fx.fn_bodies() if (b.get("impl_self") or "").startswith("extractor::Extractor<") and b.get("name") == "analyze"]
@@ -267,6 +374,7 @@ def check(fx, rep, tier):
     from .. import core as _core2
 
     _core2.import_rules(rep, fx, "C13", "R02.2", only_rules=("R13.1",), floor=20, what="poll-cadence obligations (C13 R13.1) behind 'the same success/failure class'")
+    check_run_persistent_state(fx, rep, cg)
     return rep.finish(
         "Every start of an iteration over a hash collection on the analyze() call graph is enumerated and its consumer classified; insensitive consumers need nothing, the others are tied to a law that is "
         "re-checked here: commutativity/associativity clauses of merge for the fold, sort-on-insert for layout rows, rule isolation for rule application, payload-ignoring equality for conflicts.",
